@@ -15,6 +15,18 @@ Theorem C20_flm_sound : forall (a b : list string) alo ahi blo bhi,
   /\ sub a (mA m) (mSize m) = sub b (mB m) (mSize m).
 Proof. exact (fun a b => flm_sound string String.eqb a b string_eqb_spec). Qed.
 
+(* ... is at least as long as every common run inside the window, and the same two facts as the
+   decidable predicates that the driver evaluates on what the real findLongestMatch returns *)
+Theorem C20_flm_checked : forall (a b : list string) alo ahi blo bhi,
+  alo <= ahi <= List.length a -> blo <= bhi <= List.length b ->
+  flm_okb String.eqb a b alo ahi blo bhi (find_longest_match String.eqb a b alo ahi blo bhi) = true
+  /\ flm_maxb String.eqb a b alo ahi blo bhi (find_longest_match String.eqb a b alo ahi blo bhi) = true.
+Proof.
+  intros a b alo ahi blo bhi Ha Hb. split.
+  - exact (flm_okb_holds string String.eqb string_eqb_spec a b alo ahi blo bhi Ha Hb).
+  - exact (flm_maxb_holds string String.eqb a b alo ahi blo bhi Ha Hb).
+Qed.
+
 (* matchingBlocks: fuel |a|+|b|+1 suffices; the blocks are non-empty equal slices, increasing in both
    texts (each starts at or after the end of the previous one), followed by the sentinel *)
 Theorem C20_matching_blocks : forall a b : list string,
@@ -37,6 +49,15 @@ Theorem C20_opcodes_tile : forall a b : list string,
   exists cs, get_opcodes String.eqb a b = Some cs
              /\ tiles_spec string a b 0 0 cs (List.length a) (List.length b).
 Proof. exact (opcodes_tile string String.eqb string_eqb_spec). Qed.
+
+(* the last two as decidable predicates (evaluated on the real matchingBlocks / GetOpCodes results) *)
+Theorem C20_blocks_checked : forall a b : list string,
+  exists ms, matching_blocks String.eqb a b = Some ms /\ blocks_okb String.eqb a b 0 0 ms = true.
+Proof. exact (blocks_okb_holds string String.eqb string_eqb_spec). Qed.
+Theorem C20_opcodes_checked : forall a b : list string,
+  exists cs, get_opcodes String.eqb a b = Some cs
+             /\ tiles_okb String.eqb a b 0 0 cs (List.length a) (List.length b) = true.
+Proof. exact (tiles_okb_holds string String.eqb string_eqb_spec). Qed.
 
 (* Diff always returns (the model's fuel never runs out) ... *)
 Theorem C20_total : forall have want, diff have want <> None.
@@ -90,6 +111,16 @@ Theorem C20_diff_spec : forall have want d,
                  /\ spec_patch have want hs = true /\ spec_headers hs = true /\ spec_context hs = true).
 Proof. exact diff_spec. Qed.
 
+(* the same for makeUnifiedDiff called on any two lists of newline-terminated lines (also empty lists) *)
+Theorem C20_lines_spec : forall a b : list string,
+  Forall proper a -> Forall proper b ->
+  exists d, diff_lines a b = Some d
+    /\ spec_empty_iff_lines a b d = true
+    /\ (d <> ""%string ->
+        exists hs, parse_unified (nls ++ d)%string = Some hs /\ hs <> []
+                   /\ spec_patch_lines a b hs = true /\ spec_headers hs = true /\ spec_context hs = true).
+Proof. exact diff_lines_spec. Qed.
+
 (* rendering loses nothing: the text of a diff over newline-terminated lines reads back as its hunks *)
 Theorem C20_parse_render : forall hs, hs <> [] -> Forall proper_hunk hs ->
   parse_unified (nls ++ render_unified hs)%string = Some hs.
@@ -131,3 +162,7 @@ Print Assumptions C20_matching_blocks_nonadjacent.
 Print Assumptions C20_diff_spec.
 Print Assumptions C20_parse_render.
 Print Assumptions C20_diffmatch_empty_iff.
+Print Assumptions C20_flm_checked.
+Print Assumptions C20_blocks_checked.
+Print Assumptions C20_opcodes_checked.
+Print Assumptions C20_lines_spec.
